@@ -1,7 +1,7 @@
 (* C10 -- the overlay shows the overlayfs union of its layers and never modifies lowers.
    Only statements, closed by [exact]; proofs live in Proofs/Overlay*.v. *)
 From Coq Require Import List String NArith Bool.
-From FB Require Import Model.Overlay Proofs.OverlayInv Proofs.OverlayScan Proofs.OverlayRestart Proofs.OverlayReadOnly Proofs.OverlayCoh Proofs.OverlayCohView Proofs.OverlayCohOps Proofs.OverlayCohSteps Proofs.OverlayRefineTeq Proofs.OverlayRefineMerge Proofs.OverlayRefineRun Proofs.OverlayRefine Proofs.OverlayRefineWh Proofs.OverlayRefineCu.
+From FB Require Import Model.Overlay Proofs.OverlayInv Proofs.OverlayScan Proofs.OverlayRestart Proofs.OverlayReadOnly Proofs.OverlayCoh Proofs.OverlayCohView Proofs.OverlayCohOps Proofs.OverlayCohSteps Proofs.OverlayRefineTeq Proofs.OverlayRefineMerge Proofs.OverlayRefineRun Proofs.OverlayRefine Proofs.OverlayRefineWh Proofs.OverlayRefineCu Proofs.OverlayRefineCuFile.
 Import ListNotations.
 Local Open Scope string_scope.
 Local Open Scope N_scope.
@@ -199,6 +199,44 @@ Proof.
   repeat (first [apply Forall_cons | apply Forall_nil | split | apply wf_dir | apply wf_file | apply wf_lnk | apply wf_wh
                 | apply NoDup_cons | apply NoDup_nil | (cbn; intuition discriminate) | reflexivity ]).
 Qed.
+(* (c), COPY-UP OF A REGULAR FILE (Proofs/OverlayRefineCuFile.v): open for writing (any flag word that is not read-only by the
+   code's mask) / WRITE / TRUNCATE / CHMOD / SETXATTR / REMOVEXATTR (name not an opaque marker) of a visible path whose first
+   candidate is a regular file of a LOWER layer.  The model copies the parent chain and the file up, then changes the copy.
+   [direct_cu_file s o] (boolean, disk state): the upper layer has no entry at the path; the lower file has NO USER XATTRS
+   (the known finding - with one the statement is false) and a mode within 07777; the directories to be copied satisfy
+   [cu_okb]; no lower layer uses the identity the copy will get (the overlay's inode counter).
+   [ids_ok s o v] (boolean, on the client's view): the view does not show that fresh identity, and shows the file's own identity
+   at its path only - copy-up gives the upper copy a fresh identity and separates it from other names of the same lower
+   inode, so for a lower file with two links the statement is false (Example below).
+   Conclusion: same answer as the ordinary file system, lowers unchanged, and the views agree UP TO FILE IDENTITIES: equal
+   serialisations ([ser] omits identities), not [teq]. *)
+Theorem C10_op_refines_copyup_file : forall s o v, Coherent s -> direct_cu_file s o = true -> view (load_all s) = Some v ->
+  ids_ok s o v = true ->
+  let spec := fs_apply o (mkFs v (next_ino s)) in
+  res_same (fst (step o s)) (fst spec) /\ ser_opt (view (load_all (run_op o s))) = ser SER (f_tree (snd spec)) /\
+  lowers (run_op o s) = lowers s.
+Proof. exact op_refines_copyup_file. Qed.
+Example C10_op_refines_copyup_file_nonvacuous :
+  let u := Dir 493 [] [("d", Dir 493 [] [])] in
+  let l := Dir 493 [] [("d", Dir 448 [] [("f", File 7 420 [104; 105] []); ("e", Dir 448 [] [("g", File 8 416 [1] [])])]);
+                       ("h1", File 9 420 [2] []); ("h2", File 9 420 [2] []); ("x", File 10 420 [3] [("user.a", [1])])] in
+  let s := load_all (fresh (Some u) [l] 1000) in
+  let ok o := match view s with Some v => direct_cu_file s o && ids_ok s o v | None => false end in
+  let fails o := match view s with
+                 | Some v => negb (String.eqb (ser_opt (view (load_all (run_op o s)))) (ser SER (f_tree (snd (fs_apply o (mkFs v 1000))))))
+                 | None => false end in
+  Coherent s /\
+  forallb ok [OWrite ["d"; "f"] 1 [33]; OChmod ["d"; "e"; "g"] 384; OTruncate ["d"; "f"] 1; OSetxattr ["d"; "f"] "user.k" [1];
+              ORemovexattr ["d"; "f"] "user.k"; OOpen ["d"; "e"; "g"] OF_WT; OOpen ["d"; "f"] OF_W] = true /\
+  forallb (fun o => negb (ok o)) [OChmod ["h1"] 384; OChmod ["x"] 384; OOpen ["d"; "f"] OF_R; OChmod ["d"] 384] = true /\
+  forallb fails [OChmod ["h1"] 384; OChmod ["x"] 384] = true /\
+  upper (run_op (OChmod ["d"; "e"; "g"] 384) s) = Some (Dir 493 [] [("d", Dir 493 [] [("e", Dir 448 [] [("g", File 1000 384 [1] [])])])]).
+Proof.
+  cbv zeta. split; [|vm_compute; repeat split; reflexivity].
+  apply load_all_coherent. apply fresh_coherent.
+  repeat (first [apply Forall_cons | apply Forall_nil | split | apply wf_dir | apply wf_file | apply wf_lnk | apply wf_wh
+                | apply NoDup_cons | apply NoDup_nil | (cbn; intuition discriminate) | reflexivity ]).
+Qed.
 (* two ingredients, of independent use: the ordinary file system cannot tell [teq] trees apart (same answer, [teq] results) ... *)
 Theorem C10_ordinary_fs_respects_teq : forall o a b n, teq a b ->
   res_same (fst (fs_apply o (mkFs a n))) (fst (fs_apply o (mkFs b n))) /\
@@ -326,6 +364,7 @@ Print Assumptions C10_op_refines_whiteout_history.
 Print Assumptions C10_copy_up_dir_neutral.
 Print Assumptions C10_op_refines_copyup.
 Print Assumptions C10_op_refines_copyup_history.
+Print Assumptions C10_op_refines_copyup_file.
 Print Assumptions C10_ordinary_fs_respects_teq.
 Print Assumptions C10_merge_update.
 Print Assumptions C10_merge_file_change.
